@@ -208,10 +208,11 @@ INFO = {
         "rulefn": _c18_rule,
         "trusted": ["Vec<Vec<Ratio<BigInt>>> / Vec<Vec<BigInt>> identified with List (List Rat) / List (List Int); Ratio<BigInt> is always reduced with positive denominator, like core Rat; toM maps rectangular lists to Mathlib matrices",
                     "the model answers `inconclusive ragged` on arguments whose rows have different lengths (never generated)"],
-        "gaps": ["image_mod_p (output rows are input rows, independent mod p, of the rank of the input mod p): certified on every explored case by Spec.LinAlg (sub-multiset test and rank over F_p by an independent row reduction with the proved modular inverse); theorem outstanding"],
-        "assumptions": ["square n x n input for determinant / inv / solve_linear_system (b of length n) / mul_inv_from_right_exact (n >= 1); rectangular n x m and r x m arguments with n, r >= 1 for iim, k x n with k >= 1 for supplement_basis; other shapes are run through the correspondence only"],
-        "level_text": "Theorems for every square rational (integer) matrix about the Lean model of determinant.rs, matrix.rs, solve_linear_system.rs and triangular.rs: determinant = Matrix.det; inv returns B with B*A = 1 exactly when det A != 0 and MatrixNotInvertible otherwise; solve_linear_system returns x with x*A = b exactly when det A != 0 and MatrixNotInvertible otherwise; mul_inv_from_right_exact returns C with C*B = A, errs only for singular B and asserts only when no integer quotient exists; iim (n x m, r x m, any m) reports LinearlyDependent exactly for dependent rows of M and otherwise returns X with X*M = V or NotInImage according to whether every row of V is in the span; supplement_basis (k x n) returns an invertible n x n matrix starting with the input rows exactly when they are independent, InsufficientRank otherwise. image_mod_p: model tied to subspace.rs by differential testing and every implementation output decided by an independent Lean oracle (rank over F_p by a separate row reduction). All routines are additionally cross-checked per case by independent oracles (cofactor determinant, adjugate inverse, ranks over Q, exact products).",
-        "level_note": "Trusted: Lean kernel + 3 standard axioms; Mathlib Matrix/det; BigInt/BigRational identified with Int/Rat; correspondence generator coverage. Partial: the image_mod_p clause is certified per explored case, not proved.",
+        "gaps": [],
+        "assumptions": ["square n x n input for determinant / inv / solve_linear_system (b of length n) / mul_inv_from_right_exact (n >= 1); rectangular n x m and r x m arguments with n, r >= 1 for iim, k x n with k >= 1 for supplement_basis; other shapes are run through the correspondence only",
+                        "image_mod_p: p prime and entries that represent elements of F_p faithfully (the only entry divisible by p is 0, e.g. entries in 0..p or -p..p): the routine tests the integer entries of its input against 0, not their residues, so image_mod_p([[5]], 5) = [[5]] (theorem image_mod_p_total shows it still never panics; two decide-checked examples in Proofs/C18.lean show the hypothesis cannot be dropped)"],
+        "level_text": "Theorems for every square rational (integer) matrix about the Lean model of determinant.rs, matrix.rs, solve_linear_system.rs and triangular.rs: determinant = Matrix.det; inv returns B with B*A = 1 exactly when det A != 0 and MatrixNotInvertible otherwise; solve_linear_system returns x with x*A = b exactly when det A != 0 and MatrixNotInvertible otherwise; mul_inv_from_right_exact returns C with C*B = A, errs only for singular B and asserts only when no integer quotient exists; iim (n x m, r x m, any m) reports LinearlyDependent exactly for dependent rows of M and otherwise returns X with X*M = V or NotInImage according to whether every row of V is in the span; supplement_basis (k x n) returns an invertible n x n matrix starting with the input rows exactly when they are independent, InsufficientRank otherwise; image_mod_p (n x m, p prime, entries faithful representatives) never fails and returns rows of the input at distinct indices that are linearly independent over ZMod p and span every input row. All routines are additionally cross-checked per case by independent oracles (cofactor determinant, adjugate inverse, ranks over Q, exact products).",
+        "level_note": "Trusted: Lean kernel + 3 standard axioms; Mathlib Matrix/det; BigInt/BigRational identified with Int/Rat; correspondence generator coverage.",
     },
     "C12": {
         "rule": "primitives of prim.rs (divrem, gcd, modpow, ext-gcd witness, x-a division, evaluation) on random and edge inputs; find_linear_factors on every polynomial up to a degree bound over F_2..F_13, random f of degree <= 12 over primes up to 2^61 (and beyond 2^64) built as c*prod (x-r_i)^e_i * g with g root-free by construction; scripted histories where the drawn shift is a root and where draws never split; the random history of every run is replayed into the model. Non-trivial: polynomial of degree >= 2; distinct = distinct (op,args incl. history).",
